@@ -11,13 +11,14 @@ AllFormats == {"uri", "uripost", "raw", "json"}
 \* entry alphabet: X-A is also an option (different value), x-c is the option X-C in another spelling,
 \* User-Agent is a name the transport would default, X-B is the entry's alone
 EntryQuick == << [n |-> "X-A", v |-> "ea"], [n |-> "x-c", v |-> "ec"], [n |-> "User-Agent", v |-> "ua-entry"] >>
-EntryBig   == EntryQuick \o << [n |-> "X-B", v |-> "eb"] >>
+EntryBig   == EntryQuick \o << [n |-> "X-B", v |-> "eb"] >>   \* (not used by the shipped configs: 2x the space)
 OptAlpha   == << [n |-> "Host", v |-> "OPTHOST"], [n |-> "X-A", v |-> "oa"], [n |-> "X-C", v |-> "oc"] >>
 
 MethodsQuick == {"GET", "POST", "PURGE"}
-MethodsBig   == {"GET", "POST", "PUT", "DELETE", "PATCH", "HEAD", "OPTIONS", "PURGE"}
+MethodsBig   == {"GET", "POST", "DELETE", "HEAD", "OPTIONS", "PURGE"}
 URIsQuick    == {"/", "/a/b?x=1&y=%20z"}
-URIsBig      == URIsQuick \cup {"/a%2Fb/c;p=1/", "/q?u=http://e.test/p?a=b&c=/d/"}
+\* the last one is not an RFC 3986 URI ("|" unescaped): net/http re-encodes its path (known finding)
+URIsBig      == URIsQuick \cup {"/a%2Fb/c;p=1/", "/q?u=http://e.test/p?a=b&c=/d/", "/p|q/r?x=a|b"}
 BodiesOne    == {"k=v&x=%20 two {\"j\":[1,2]}"}
 
 Both     == {TRUE, FALSE}
